@@ -12,7 +12,7 @@ ZONES = ['Europe/Berlin', 'America/New_York', 'Asia/Kolkata', 'Australia/Lord_Ho
 
 def fixtures():
     out = []
-    base = '/repo/src/icalendar/tests'
+    base = os.path.join(os.environ.get('VERIF_REPO', '/repo'), 'src', 'icalendar', 'tests')
     for d in FIXTURE_DIRS:
         for p in sorted(glob.glob(os.path.join(base, d, '*.ics'))):
             with open(p, 'rb') as f:
